@@ -153,7 +153,9 @@ AGG_REQ = ["vote_array.shape[1] == len(reference_types)",
 
 contract(
     M + 'aggregate_votes',
-    properties=['C02', 'C03'],
+    # C04: the column order of the aggregated arrays (hence the tie-breaking of choose_node's argsort)
+    # is the sorted order of the type names, not the iteration order of a set of strings
+    properties=['C02', 'C03', 'C04'],
     native=dict(gen=_gen_agg),
     params=AGG_PARAMS,
     returns='Tuple[Arr2[Int],Arr2[Real],List[Name]]',
